@@ -28,7 +28,11 @@ func c05Content(c *core.Ctx) {
 		{"object", gen.S{"type": "object", "required": gen.Arr("a"), "properties": gen.S{"a": gen.S{"type": "integer"}, "b": gen.S{"type": "string", "maxLength": 3.0}}}, []any{gen.S{"a": 1.0}, gen.S{"a": 1.0, "b": "xy"}, gen.S{"b": "xy"}, gen.S{"a": "one"}, gen.S{"a": 1.0, "b": "toolong"}}},
 		{"array", gen.S{"type": "array", "items": gen.S{"type": "integer"}, "maxItems": 2.0}, []any{gen.Arr(1.0), gen.Arr(1.0, 2.0), gen.Arr(1.0, 2.0, 3.0), gen.Arr("x")}},
 	}
-	for _, in := range []string{"query", "header", "cookie", "path"} {
+	for _, in := range []string{"query", "header", "header:x-api-context", "header:ETag", "cookie", "path"} {
+		hdrName := "X-Param"
+		if strings.HasPrefix(in, "header:") {
+			in, hdrName = "header", strings.TrimPrefix(in, "header:") // names in another spelling than net/http's canonical one
+		}
 		for _, sh := range shapes {
 			if (in == "cookie" || in == "path") && sh.name != "integer" {
 				// JSON punctuation is not legal in a cookie value; in a path segment it must be percent-encoded, and what
@@ -41,7 +45,7 @@ func c05Content(c *core.Ctx) {
 				}
 				name := "p"
 				if in == "header" {
-					name = "X-Param"
+					name = hdrName
 				}
 				param := gen.S{"name": name, "in": in, "content": gen.S{"application/json": gen.S{"schema": sh.schema}}}
 				if required {
@@ -84,7 +88,7 @@ func c05Content(c *core.Ctx) {
 						}
 					}
 					req := newReq("GET", target, hdr, nil)
-					desc := fmt.Sprintf("content-defined parameter in=%s shape=%s required=%v value=%s", in, sh.name, required, text)
+					desc := fmt.Sprintf("content-defined parameter in=%s name=%s shape=%s required=%v value=%s", in, name, sh.name, required, text)
 					c.Begin(desc)
 					input, err := reqInput(router, req, &openapi3filter.Options{})
 					if err != nil {
